@@ -110,6 +110,10 @@ def generate(rng, tier, profile='default'):
                     'shape': rng.choice(SHAPES)})
   max_ops = 12 if tier == 'quick' else 40
   n_ops = rng.randrange(2, max_ops + 1)
+  if rng.random() < 0.01:
+    # a long stream into a big queue: far more pushes than capacity
+    n_ops = rng.randrange(80, 400)
+    ks[0] = rng.choice((13, 21, 34, 64))
   p_read = rng.choice((0.1, 0.25, 0.4))
   p_mut = rng.choice((0.0, 0.3, 0.6))
   ops = []
